@@ -6,6 +6,30 @@ VERIF = os.path.dirname(os.path.dirname(os.path.abspath(__file__)))
 ALL = [f"C{i:02d}" for i in range(1, 21)]
 
 CLAIMED = {
+    "C06": dict(
+        technique="Coq proofs of weight preservation for bottom-up trimming, injective renaming and start separation (any commutative semiring); every transformation's output is read back and evaluated by the proved reference semantics under vm_compute and compared with the input's",
+        text="cotrim, rename and separate_start are proved to preserve the derivation sum of every string at every height for every grammar over every commutative semiring (non-generating symbols are proved to have weight zero; the generating set is proved to be exactly the productive symbols). For all transformations and options the implementation's output grammar is read back, evaluated in Coq by the reference semantics (proved to be the sum over all derivation trees) and compared with the input grammar's values: exact rationals on finitely ambiguous grammars, Booleans on all grammars (nullable and unary cycles included), floats against the Kleene limit on convergent cyclic grammars.",
+        note="Partial: binarize, separate_terminals, nullaryremove, unaryremove, unarycycleremove, cnf, unfold and top-down trimming have no preservation theorem for all inputs; they are decided by the correspondence run (translation validation against the proved semantics). Cyclic non-Boolean sums are limits and are only compared numerically.",
+        design="§4 C06",
+    ),
+    "C07": dict(
+        technique="Coq proofs: shape theorems for models of binarize/separate_terminals/push_null_weights/unaryremove/separate_start and the whole CNF pipeline for every grammar; verified (sound and complete) checkers evaluated by vm_compute on every output of the implementation",
+        text="For every input grammar the models of the transformations are proved to produce the promised shapes and the CNF pipeline is proved to end in Chomsky normal form. The boolean checkers (in_cnf, arity, no unary, no nullary except start, start not on rhs, all symbols useful via generating/reachable closures, unary cycle) are proved sound and complete for their predicates, and are evaluated in Coq on every grammar the implementation returns; the library's own in_cnf()/has_unary_cycle() are compared with them.",
+        note="The transformation models are tied to the code by the checker run on the implementation's outputs (translation validation) rather than by a structural comparison of rule lists, because the implementation invents fresh names. unarycycleremove and trim have no model-level theorem (checker only).",
+        design="§4 C07",
+    ),
+    "C08": dict(
+        technique="Coq proofs: Kleene iterate = sum over all derivation trees of bounded height; semi-naive identity for the regenerated factor selection; agenda invariant and fixed-point theorem for every pop order; vm_compute correspondence of agenda/naive/treesum/expected_length",
+        text="bu_iter (naive evaluation) is proved equal to the sum of the weights of all derivation trees of bounded height (complete, duplicate-free enumeration). The agenda's update is regenerated from source and proved to push exactly the change of every rule's product; the invariant old + pending = rhs(old) is proved for every reachable state under every pop order, so an empty agenda means the grammar equations hold. agenda(), naive_bottom_up(), treesum() and expected_length are compared with the Coq iterate on acyclic grammars (exact), Boolean grammars (all shapes) and convergent cyclic float grammars under several hash seeds.",
+        note="Partial: convergence in the reals (least solution as a limit) and the tolerance test are not formalised; the theorems are about the exact (tol = 0) transition system. expected_length is decided by correspondence only.",
+        design="§4 C08",
+    ),
+    "C20": dict(
+        technique="Coq proofs over an abstract field about the regenerated normalisation factor: per-head sums, tree proportionality, EOS wrapping; vm_compute correspondence of the normalised rule weights",
+        text="With the factor expression regenerated from locally_normalize, it is proved over any field that the rules of a head with Z <> 0 sum to one when Z solves the grammar equations, and that every derivation tree's weight is divided by Z of its root (so every string weight, finite or infinite sum, is divided by Z[S]); add_EOS is proved to give xs+[eos] the weight of xs and to require exactly one trailing eos. The implementation's normalised rule weights are compared exactly with the Coq model, and per-head sums, proportionality and EOS placement are checked on generated grammars.",
+        note="Z = agenda() is taken as a solution of the grammar equations (that is C08); float grammars are compared with tolerance 1e-6.",
+        design="§4 C20",
+    ),
     "C02": dict(
         technique="Coq proofs: reference semantics = sum over all derivation trees (complete, duplicate-free enumeration), CKY = reference on CNF, permutation/renaming invariance, regenerated agenda-priority lemmas; vm_compute correspondence of every parser entry point against the proved reference",
         text="The derivation sum W is proved (any commutative semiring, any grammar) to be the sum over a sound, complete, duplicate-free enumeration of derivation trees; the executable tabulation used for the correspondence is proved equal to W; CKY on CNF is proved equal to W; W is proved invariant under rule permutation and injective renaming; the agenda priorities of both Earley parsers are regenerated from source and proved to pop contributors first. cfg(xs), Earley, IncrementalCKY, rescaled Earley and materialize are compared with the proved reference on generated grammars (exact rationals, Booleans incl. cyclic grammars, floats on convergent cyclic grammars) under rule permutation, renaming and several hash seeds.",
